@@ -179,3 +179,46 @@ pub(crate) fn resolver_override(host: &str) -> Vec<std::net::SocketAddr> {
 pub fn intertwine<T>(v6: Vec<T>, v4: Vec<T>) -> Vec<T> {
     crate::happy::intertwine_vecs(v6, v4)
 }
+
+/// What the TLS handshake inside a CONNECT tunnel would have been given.
+#[derive(Debug, Clone, PartialEq, Eq)]
+pub struct TunnelInfo {
+    /// the name the TLS session would be verified against
+    pub name: String,
+    /// `accept_invalid_certs` handed to the handshaker
+    pub accept_invalid_certs: bool,
+    /// `accept_invalid_hostnames` handed to the handshaker
+    pub accept_invalid_hostnames: bool,
+    /// number of added root certificates handed to the handshaker
+    pub root_certificates: usize,
+}
+
+thread_local! {
+    static PLAIN_TUNNELS: RefCell<Option<Vec<TunnelInfo>>> = const { RefCell::new(None) };
+}
+
+/// On the current thread, leave the TLS layer out of CONNECT tunnels (the harness then sees the
+/// request sent inside the tunnel in clear and can script the origin's answer). Off by default.
+pub fn set_plain_tunnels(on: bool) {
+    PLAIN_TUNNELS.with(|p| *p.borrow_mut() = if on { Some(Vec::new()) } else { None });
+}
+
+/// The handshakes that were left out since the last call (in order).
+pub fn take_tunnel_log() -> Vec<TunnelInfo> {
+    PLAIN_TUNNELS.with(|p| p.borrow_mut().as_mut().map(std::mem::take).unwrap_or_default())
+}
+
+pub(crate) fn plain_tunnel(name: &str, s: &crate::request::BaseSettings) -> bool {
+    PLAIN_TUNNELS.with(|p| match p.borrow_mut().as_mut() {
+        Some(log) => {
+            log.push(TunnelInfo {
+                name: name.to_owned(),
+                accept_invalid_certs: s.accept_invalid_certs,
+                accept_invalid_hostnames: s.accept_invalid_hostnames,
+                root_certificates: s.root_certificates.0.len(),
+            });
+            true
+        }
+        None => false,
+    })
+}
